@@ -4,12 +4,12 @@ From RecordUpdate Require Import RecordSet.
 From SasLexer Require Import Gen.TokenType Gen.ErrorKind Gen.Channel Gen.Unicode Model.Base Model.Core
      Model.Helpers Model.Numeric Model.Lexer1 Model.Lexer2 Model.Lexer3 Spec.RefLex
      Proofs.Generic Proofs.LexGeneric Proofs.Bom Proofs.SemiProgram Proofs.SemiCompose Proofs.RefLexProofs
-     Proofs.OcBase Proofs.OcSym Proofs.OcScan Proofs.OcNum Proofs.OcIdent Proofs.OcData Proofs.OcWhole.
+     Proofs.OcBase Proofs.OcSym Proofs.OcScan Proofs.OcNum Proofs.OcIdent Proofs.OcData Proofs.OcStr Proofs.OcWhole.
 Import ListNotations RecordSetNotations.
 Open Scope N_scope.
 
-(** texts covered so far: macro-free and without quote characters *)
-Definition no_quote (c : char) : bool := negb ((c =? c_squote) || (c =? c_dquote)).
+(** texts covered so far: macro-free and without double-quote characters *)
+Definition no_quote (c : char) : bool := negb (c =? c_dquote).
 Definition okP (l : list char) : bool := macro_free l && forallb no_quote l.
 
 Lemma okP_tail c r : okP (c :: r) = true -> okP r = true.
@@ -68,7 +68,7 @@ Section All.
   Proof.
     intros [|c r] Hne Hok; [contradiction|]. unfold okP in Hok. apply andb_true_iff in Hok. destruct Hok as [Hmf Hq].
     cbn [forallb] in Hq. apply andb_true_iff in Hq. destruct Hq as [Hqc _]. unfold no_quote in Hqc.
-    apply negb_true_iff in Hqc. apply orb_false_iff in Hqc. destruct Hqc as [Hsq Hdq].
+    apply negb_true_iff in Hqc. rename Hqc into Hdq.
     destruct (catch_all c) eqn:Eca.
     { apply (of_lt_class c r Hmf). apply class_catch_all. exact Eca. }
     destruct (catch_all_false c Eca) as [Hws|[Hdg|[Hns|Hin]]].
@@ -77,7 +77,9 @@ Section All.
     - apply (of_lt_class' c r Hmf). apply class_ident; [exact block_ok|exact Hns].
     - unfold OTHER_SYMS in Hin. apply in_app_or in Hin. destruct Hin as [Hin|Hin].
       + cbn [In] in Hin.
-        destruct Hin as [<-|Hin]; [discriminate Hsq|].
+        destruct Hin as [<-|Hin].
+        { apply (single_iteration text bb F msep limit (c_squote :: r) c_squote r eq_refl).
+          intros s rs HOC Hr Hf. exact (class_squote text bb F msep r s rs HOC Hr Hf). }
         destruct Hin as [<-|Hin]; [discriminate Hdq|].
         destruct Hin as [<-|Hin]; [apply (of_lt_class _ r Hmf); apply class_semi|].
         destruct Hin as [<-|Hin].
@@ -113,7 +115,7 @@ End All.
 Definition body_of (src : list char) : list char := snd (split_bom src).
 
 (** ** The lexer model is the reference lexer (release profile) on macro-free text without quote
-    characters. *)
+    characters; single-quoted literals with their suffixes are covered. *)
 Theorem lex_is_reflex_noquote msep src :
   okP (body_of src) = true ->
   let r := lex (mkCfg false msep) src in
